@@ -74,6 +74,10 @@ mod epoch_nanoseconds;
 #[cfg(feature = "tzdb")]
 pub mod tzdb;
 
+#[cfg(feature = "verif_hooks")]
+#[doc(hidden)]
+pub mod verif_hooks;
+
 #[doc(hidden)]
 pub(crate) mod rounding;
 #[doc(hidden)]
